@@ -296,6 +296,8 @@ def run_part(ck, tier):
         lines.append('op=xattr id=%s mode=load doc=%s mis=%s ovf=%s' % (cid, doc.encode().hex(), mis, ovf))
         meta[cid] = (name, t, kind, x, mis, ovf, lines[-1], text)
     by, crashes = core.run_cases(exe, lines, 'asan')
+    for ln, key, err, rc in crashes:
+        ck.violation('document/xml/attribute/crash/%s' % key, {'driver': 'drv_req', 'variant': 'asan', 'case': ln[:400000], 'stderr': err[-1500:]}, 'process died: ' + key)
     for cid, e in by.items():
         name, t, kind, x, mis, ovf, line, text = meta[cid]
         ck.case(('attribute', cid, line[-100:]), nontrivial=True)
